@@ -34,7 +34,7 @@ from tools.lib import common
 JUNK = [b"garbage", b"\x80\x04\x95", b"\x00" * 16, b"not a pickle at all \xff\xfe", b"\x80\x05N", b"(lp0\n"]
 PAUSE_TO_PC = {"exists": "started", "open-r": "willOpen", "load": "willLoad", "open-w": "willCompute",
                "close": None, "replace": "willRename"}
-WAIT = 60.0
+WAIT = 40.0
 
 
 class Killed(BaseException):
